@@ -14,8 +14,8 @@ if [ -f $B/.done ]; then echo $B; exit 0; fi
 exec 9>$VERIF/build/.lock
 flock 9
 if [ -f $B/.done ]; then echo $B; exit 0; fi
-# keep only the two newest builds
-ls -1dt $VERIF/build/*/ 2>/dev/null | tail -n +3 | xargs -r rm -rf
+# keep the six newest builds (a check in flight on an older tree must not lose its build)
+ls -1dt $VERIF/build/*/ 2>/dev/null | tail -n +7 | xargs -r rm -rf
 mkdir -p $B/gen $B/obj
 # generated sources: made from the current .erf/.yuck with the repository's tools, into our own dir
 for e in $SRC/*.erf; do b=$(basename $e .erf); gperf -L ANSI-C "$e" --output-file $B/gen/$b.c 2>$B/gen/$b.log || { echo "gperf failed on $e" >&2; exit 2; }; done
